@@ -19,7 +19,8 @@ META = {
 }
 
 INTERESTING3 = {"MF": [(1, 1, 1), (1, 0, 1), (0, 1, 0)], "FMF": [(1, 1, 1), (1, 0, 1), (0, 1, 1)], "M": [(1, 1, 1)],
-                "FLF": [(1, 2, 1), (2, 0, 2)]}
+                # incl. elements yielding more outputs than the chunk holds (composite keys must not spill into the next chunk)
+                "FLF": [(1, 2, 1), (2, 0, 2), (4, 1, 1), (3, 0, 1)]}
 FL_QUICK = [(1, 2), (2, 0), (0, 1), (2, 2)]
 
 
@@ -35,9 +36,12 @@ def harnesses(tier, seed):
                 for k in INTERESTING3[ty]:
                     hs.append(collect_harness("c01", "collect_vec", ty, "slice", 3, 2, 2, owners, k))
             hs.append(collect_harness("c01", "collect", ty, "slice", 2, 2, 1, [1, 0], (1, 1)))
+            # fewer chunks than workers: one chunk of 2, held by the first or by the last worker
+            for owners in ([0, 0], [1, 1]):
+                hs.append(collect_harness("c01", "collect_vec", ty, "slice", 2, 2, 2, owners, (1, 1) if ty != "FLF" else (2, 1)))
     else:
         for ty in ("M", "MF", "FMF", "FLF"):
-            for (n, t, c) in ((3, 2, 1), (3, 2, 2), (4, 2, 2), (3, 3, 1)):
+            for (n, t, c) in ((3, 2, 1), (3, 2, 2), (4, 2, 2), (3, 3, 1), (2, 2, 2), (3, 3, 2)):
                 cvs = count_vectors(ty, n)
                 if ty == "FLF" and n >= 4:
                     cvs = [k for k in cvs if 0 in k and 2 in k][:27]
